@@ -129,7 +129,7 @@ def main():
             st, out = chk.oracle.run([('pool', [w_['N']] + [H.Raw(c) for c in w_['tasks']])], timeout=30)[0]
             if st != 'ok': return {'reproduced': False, 'native': st}
             return {'reproduced': int(out[0]) < len(w_['tasks']), 'done': int(out[0])}
-        if w_['kind'] == 'skeleton' and w_.get('entry') == 'job':
+        if w_['kind'] == 'skeleton' and w_.get('entry') == 'job' and w_.get('expect') != 'hang':
             # the job closure needs a real TcpStream: Server::run with one worker on loopback, hostile peers (reset before / in the
             # middle of a request, immediate close), then a well-formed probe
             st, out = chk.oracle.run([('job_reset', [])], timeout=30)[0]
